@@ -102,23 +102,17 @@ func checkC19(c *c19Case) (msg string, nontrivial bool, labels []string) {
 		}
 		return shared
 	}
-	// sequential reference results
-	seq := make([]c19Out, n)
-	for i, q := range c.Queries {
-		st := storeFor(i)
-		seq[i] = runQuiet(q, st, c.Modes[i], len(c.Pairs))
-		if c.Writers[i] {
-			seq[i].store = fmt.Sprint(st.Pairs())
-		}
-	}
 	mutators := 0
-	for i, s := range c.Stmts {
-		_ = i
+	for _, s := range c.Stmts {
 		if s != nil && (s.IsAggregate() || len(s.Defs()) > 0) {
 			mutators++
 		}
 	}
 	nontrivial = n >= 2 && mutators >= 2
+	// The concurrent rounds come FIRST: state that the library would set up
+	// lazily on first use (a cache, a registry) is then touched for the first
+	// time by several goroutines at once, not by the sequential reference run.
+	all := make([][]c19Out, 0, c.Repeats)
 	for rep := 0; rep < c.Repeats; rep++ {
 		outs := make([]c19Out, n)
 		var wg sync.WaitGroup
@@ -137,9 +131,21 @@ func checkC19(c *c19Case) (msg string, nontrivial bool, labels []string) {
 		}
 		close(start)
 		wg.Wait()
+		all = append(all, outs)
+	}
+	// sequential reference results
+	seq := make([]c19Out, n)
+	for i, q := range c.Queries {
+		st := storeFor(i)
+		seq[i] = runQuiet(q, st, c.Modes[i], len(c.Pairs))
+		if c.Writers[i] {
+			seq[i].store = fmt.Sprint(st.Pairs())
+		}
+	}
+	for rep, outs := range all {
 		for i := range outs {
 			if outs[i] != seq[i] {
-				return fmt.Sprintf("statement %d %q run concurrently with %d others (GOMAXPROCS %d, repeat %d) gives\n  %+v\nalone it gives\n  %+v", i, c.Queries[i], n-1, c.Procs, rep, outs[i], seq[i]), nontrivial, labels
+				return fmt.Sprintf("statement %d %q run concurrently with %d others (GOMAXPROCS %d, round %d) gives\n  %+v\nalone it gives\n  %+v", i, c.Queries[i], n-1, c.Procs, rep, outs[i], seq[i]), nontrivial, labels
 			}
 		}
 	}
@@ -169,6 +175,23 @@ func TestC19(t *testing.T) {
 			}
 			if i > 0 && rapid.IntRange(0, 3).Draw(rt, "sameAsPrevious") == 0 {
 				st = c.Stmts[i-1].Clone() // the same statement text on two goroutines
+			}
+			// value-keyed state (e.g. a cache of compiled patterns) is only
+			// exercised by values the process has not seen before
+			tag := rapid.StringMatching(`[a-z]{8}`).Draw(rt, "tag")
+			uniq := func(n *lib.Node) {
+				if n == nil {
+					return
+				}
+				n.Walk(func(x *lib.Node) {
+					if x.K == "bin" && x.S == "~=" && x.A[1].K == "str" {
+						x.A[1].S = "(?:" + x.A[1].S + ")|zq" + tag
+					}
+				})
+			}
+			uniq(st.Where)
+			for _, f := range st.Fields {
+				uniq(f.E)
 			}
 			c.Stmts = append(c.Stmts, st)
 			c.Queries = append(c.Queries, st.Render())
